@@ -38,6 +38,9 @@ type vfOpen struct {
 	ServerCluster string `json:"sc"`
 	ServerShard   string `json:"ss"`
 	Keep          bool   `json:"keep"` // leave the stream open while the next one is opened
+	// Refused: the cluster behind the proxy refuses the stream the proxy opens in return for this one (it validates the
+	// shard ids itself): that stream fails right after it was opened
+	Refused bool `json:"refused,omitempty"`
 	// Intra: the open carries the intra-proxy headers (a peer proxy instance forwarding a stream: its own stream mode)
 	Intra bool `json:"intra,omitempty"`
 }
@@ -89,7 +92,15 @@ func vfRunC20(t *testing.T, job *vfC20Job) (out vfC20Out) {
 			lifetime, stop := context.WithCancel(context.Background())
 			observer := NewReplicationStreamObserver(log.NewNoopLogger())
 			var clientStreams []*vfClientStream
-			client := &vfAdminClient{onOpen: func(cs *vfClientStream) error { clientStreams = append(clientStreams, cs); return nil }}
+			refuseNext := false
+			client := &vfAdminClient{onOpen: func(cs *vfClientStream) error {
+				clientStreams = append(clientStreams, cs)
+				if refuseNext {
+					refuseNext = false
+					cs.breakNow() // the first Recv on it reports the refusal
+				}
+				return nil
+			}}
 			scc := config.ShardCountConfig{}
 			lcm := LCMParameters{}
 			rp := RoutingParameters{}
@@ -123,6 +134,7 @@ func vfRunC20(t *testing.T, job *vfC20Job) (out vfC20Out) {
 			}
 			var streams []*live
 			start := func(o vfOpen) *live {
+				refuseNext = o.Refused
 				l := &live{ss: vfMDStream(o), open: o}
 				streams = append(streams, l)
 				go func() {
@@ -167,10 +179,19 @@ func vfRunC20(t *testing.T, job *vfC20Job) (out vfC20Out) {
 					break
 				}
 				outcome = append(outcome, fmt.Sprintf("ended=%v err=%v", l.ended, l.err != nil))
-				if l.ended && l.err == nil && !o.Intra {
+				if l.ended && l.err == nil && !o.Intra && !o.Refused {
 					// nobody ended this stream (the initiator sent nothing and did not hang up, no source stream ended): a
 					// handler that returns at once without an error closes the stream with status OK - neither served nor rejected
 					violate("stream-neither-served-nor-rejected", fmt.Sprintf("open %+v: the handler returned at once without an error (the initiator sees a clean end of stream)", o))
+				}
+				if o.Refused && strings.HasPrefix(job.Mode, "routing") && !l.ended {
+					// the stream the proxy opened in return was refused: the proxy cannot serve this stream, so it ends it - by
+					// itself, the initiator neither sends anything nor hangs up
+					time.Sleep(2 * time.Second)
+					synctest.Wait()
+					if !l.ended && !blocked("after the refusal") {
+						violate("stream-neither-served-nor-ended", fmt.Sprintf("open %+v: the stream the proxy opened in return was refused; 2 s later the handler is still running although nothing can be relayed on it", o))
+					}
 				}
 				if !o.Keep && !l.ended {
 					l.ss.cancel()
@@ -257,8 +278,19 @@ func vfRunC20(t *testing.T, job *vfC20Job) (out vfC20Out) {
 					}
 				}
 			}
-			// teardown
+			// teardown: the lifetime of the connection ends; in routing mode the handlers end with it, without waiting for
+			// their initiators to hang up
 			stop()
+			if strings.HasPrefix(job.Mode, "routing") && !wedged {
+				synctest.Wait()
+				time.Sleep(2 * time.Second)
+				synctest.Wait()
+				for _, l := range streams {
+					if !l.ended && !l.open.Intra && len(vrt.BlockedLockers()) == 0 {
+						violate("stream-outlives-the-connection", fmt.Sprintf("open %+v: 2 s after the connection's lifetime ended the handler is still running (its initiator has not hung up)", l.open))
+					}
+				}
+			}
 			for _, l := range streams {
 				l.ss.cancel()
 			}
@@ -353,6 +385,12 @@ func vfC20Histories(thorough bool) []vfC20Job {
 						in2 := vfOpen{ClientCluster: "2", ClientShard: "3", ServerCluster: cc, ServerShard: cs, Keep: keep, Intra: true}
 						jobs = append(jobs, vfC20Job{Mode: mode, Opens: []vfOpen{base, in2}})
 					}
+				}
+				// the cluster behind the proxy refuses the stream opened in return (out-of-range ids on its side)
+				for _, cs := range []string{"3", "0", "-1", "9", "2147483647", "-2147483648"} {
+					o := good
+					o.ClientShard, o.Keep, o.Refused = cs, keep, true
+					jobs = append(jobs, vfC20Job{Mode: mode, Opens: []vfOpen{o}})
 				}
 				// a stream-open that reuses the ids of a stream that is still up (a reconnect overtaking the teardown, a
 				// bogus duplicate)
